@@ -375,6 +375,13 @@ def run_c17_part(ctx):
     sid += 1
     scs.append(mk(sid, "migrate-unconfigured", "migrate", [{"a": "Probe", "tag": 90}, call("c1", 11),
                {"a": "AnswerError", "tag": 11, "code": 303, "text": "PHONE_MIGRATE_9", "what": "anyerror"}, {"a": "Await", "c": "c1"}, {"a": "Settle"}], dc={"dc2": 2}))
+    # another client object of the same process (a second account) has data centres 9 and 7 in its own list - at a live
+    # address: this client's list is its own, the migration is still one to an unconfigured data centre
+    for first in (False, True):
+        sid += 1
+        scs.append(mk(sid, "migrate-unconfigured-here-configured-in-another-client", "migrate", [{"a": "Probe", "tag": 90}, call("c1", 11),
+                   {"a": "AnswerError", "tag": 11, "code": 303, "text": "PHONE_MIGRATE_9", "what": "anyerror"}, {"a": "Await", "c": "c1"},
+                   {"a": "Probe", "tag": 91}, {"a": "Settle"}], dc={"dc2": 2}, otherdcs=[9, 7], otherfirst=first))
     # several migrations to unconfigured data centres on one client, then ordinary traffic and a salt rotation
     sid += 1
     scs.append(mk(sid, "migrate-unconfigured-twice", "migrate", [{"a": "Probe", "tag": 90}, call("c1", 11),
